@@ -78,6 +78,22 @@ var kindProgs = []kindProg{
 		"(defconstant @m 9)",
 		"(defun @f0 () (list (@m) @m))"},
 		"(@f0)", nil},
+	// argument values that are not self-evaluating: a symbol, a list that looks like a call, a
+	// quote form - whichever function is defined first, they arrive as they are
+	{"data-arguments", []string{
+		"(defun @f0 (y) y)",
+		"(defun @f1 (x) (list 'got (@f0 x)))",
+		"(defun @f2 (x z) (list (@f1 x) (@f0 z) (@f1 (list x z))))"},
+		"(let ((foo 42) (z 3)) (list (@f1 'foo) (@f1 '(+ 1 2)) (@f2 'z ''q) (@f1 (list '+ foo z)) (@f2 '(list 1) 'foo)))", nil},
+	{"data-arguments-self-call", []string{
+		"(defun @f0 (x acc) (if (consp x) (@f0 (cdr x) (cons (car x) acc)) (list acc x)))",
+		"(defun @f1 (x) (@f0 x (list 'end)))"},
+		"(let ((a 1) (b 2)) (list (@f1 '(a b (+ a b))) (@f1 '(quote a)) (@f0 '(b) 'a)))", nil},
+	{"data-arguments-optional-key-rest", []string{
+		"(defun @f0 (a &optional (b 'nb) &key (c 'nc)) (list a b c))",
+		"(defun @f1 (&rest r) r)",
+		"(defun @f2 (x) (list (@f0 x) (@f0 x x) (@f0 x x :c x) (@f1 x 'y x) (apply #'@f1 x (list x)) (funcall #'@f0 x)))"},
+		"(let ((s 5)) (list (@f2 's) (@f2 '(car s))))", nil},
 	{"constant-and-parameter", []string{
 		"(defconstant @k 7)",
 		"(defparameter *@p* 2)",
